@@ -432,7 +432,7 @@ func (w *world) run(p *Plan) {
 	}
 	srv.dropQueued() // nobody was watching
 	if err := w.startAgent(); err != nil {
-		w.res.Extra["start-refused"]++
+		w.res.AddExtra("start-refused", 1)
 		w.logf("start refused: %v", err)
 		return
 	}
@@ -473,7 +473,7 @@ func (w *world) run(p *Plan) {
 			w.m = model{}
 			srv.dropQueued()
 			if err := w.startAgent(); err != nil {
-				w.res.Extra["restart-refused"]++
+				w.res.AddExtra("restart-refused", 1)
 				w.logf("restart refused: %v", err)
 				return
 			}
@@ -554,7 +554,7 @@ func (w *world) judge(stream string, evs []event) {
 	var want []*ver
 	var why []string
 	for _, ev := range evs {
-		w.res.Extra["events-"+kind]++
+		w.res.AddExtra("events-"+kind, 1)
 		x, reason := w.m.consume(kind, ev.Type, ev.ver)
 		why = append(why, fmt.Sprintf("%s %s %s -> %s", stream, ev.Type, ev.ver, reason))
 		if reason == "a node-specific configuration exists" {
@@ -575,7 +575,7 @@ func (w *world) judge(stream string, evs []event) {
 	}
 	got := w.got
 	w.got = nil
-	w.res.Extra["deliveries"] += len(got)
+	w.res.AddExtra("deliveries", len(got))
 	w.logf("  %s -> delivered %v", strings.Join(why, "; "), got)
 	w.res.State(sim.Hash64(w.m.node.String(), w.m.group.String(), w.m.last.String(), w.srv.group))
 	for _, g := range got {
